@@ -55,7 +55,24 @@ func mutateHost(r *gen.R, h string) (string, string) {
 	const al = "abcdefghijklmnopqrstuvwxyz0123456789-."
 	for try := 0; try < 100; try++ {
 		var m, kind string
-		switch r.Intn(16) {
+		switch r.Intn(19) {
+		case 16:
+			// the same name with an empty port, or the port with nothing behind the colon removed
+			if port == "" {
+				m, kind = name+":", "empty-port"
+			} else {
+				m, kind = name+":", "empty-port-instead-of-port"
+			}
+		case 17:
+			// brackets around something that is not an IPv6 literal
+			if strings.HasPrefix(name, "[") {
+				m, kind = strings.Trim(name, "[]")+port, "ipv6-without-brackets"
+			} else {
+				m, kind = "["+name+"]"+port, "bracketed-name"
+			}
+		case 18:
+			m, kind = name+port+"/", "slash-inside-host-field" // only meaningful as a Host mutation
+			continue
 		case 0:
 			b := []byte(name)
 			i := r.Intn(len(b))
